@@ -53,7 +53,7 @@ def shards_for(tier, seed, prop):
     out = []
     for N in Ns:
         big = N >= 1000
-        for fs in (fss if not big else fss[:2]):
+        for fs in ((fss if not big else fss[:2]) + ([3e-8, 4e7] if (N <= 16 or N == 100) else [])):
             if big:  # split the expensive shards along the overlap axis
                 for oi in range(len(olaps)):
                     out.append({"prop": prop, "N": N, "fs": fs, "tier": tier, "olap_idx": [oi]})
